@@ -1086,5 +1086,7 @@ def _insert_expression(value: V, s_dict: SDict[K, V]) -> V:
 
 def _value_contains_circular_reference(key: TKey, value: TValue) -> bool:
     if isinstance(key, str) and isinstance(value, str):
-        return key in value
+        if value == key and re.fullmatch(r"(BLOCKCOMMENT|INCLUDE|LINECOMMENT)\d{6}", key):
+            return True  # placeholder entry
+        return re.search(rf"\${re.escape(key)}(?!\w)", value) is not None
     return False
